@@ -210,6 +210,49 @@ theorem setColorSpace_linear {α} (f : α → α) (m : Mem α) (s : Slice) : set
 example : view (setColorSpace false (· + 1) [[7, 128, 64]] ⟨0, 1, 2, 2⟩).1 ⟨0, 1, 2, 2⟩ = [128, 64]
     ∧ view (setColorSpace false (· + 1) [[7, 128, 64]] ⟨0, 1, 2, 2⟩).1 (setColorSpace false (· + 1) [[7, 128, 64]] ⟨0, 1, 2, 2⟩).2 = [129, 65] := by decide
 
+/-- the VALUE of the gradient returned by `SetColorSpace` is the pure function `scsValue` of the
+receiver's value and the colour space — whatever else the memory holds -/
+theorem setColorSpace_value {γ α} (linear : Bool) (f : α → α) (m : Mem α) (g : Grad γ)
+    (hl : g.stops.off + g.stops.len ≤ (m.getD g.stops.arr []).length) :
+    (gradSetColorSpace linear f m g).2.value (gradSetColorSpace linear f m g).1 = scsValue linear f (g.value m) := by
+  cases linear with
+  | true => rfl
+  | false =>
+    simp only [gradSetColorSpace, Grad.value, scsValue, Bool.false_eq_true, if_false]
+    rw [setColorSpace_result f m g.stops hl]
+
+/-- `SetColorSpace` is pure: equal gradient values and equal colour spaces give equal results,
+independent of the call history (of the memories the two calls happen in, of earlier calls on the
+same object, of which object carries the value) -/
+theorem setColorSpace_pure {γ α} (linear : Bool) (f : α → α) (m₁ m₂ : Mem α) (g₁ g₂ : Grad γ)
+    (h₁ : g₁.stops.off + g₁.stops.len ≤ (m₁.getD g₁.stops.arr []).length)
+    (h₂ : g₂.stops.off + g₂.stops.len ≤ (m₂.getD g₂.stops.arr []).length)
+    (hv : g₁.value m₁ = g₂.value m₂) :
+    (gradSetColorSpace linear f m₁ g₁).2.value (gradSetColorSpace linear f m₁ g₁).1
+      = (gradSetColorSpace linear f m₂ g₂).2.value (gradSetColorSpace linear f m₂ g₂).1 := by
+  rw [setColorSpace_value linear f m₁ g₁ h₁, setColorSpace_value linear f m₂ g₂ h₂, hv]
+
+/-- in particular a second call on the same object after a first one sees only the receiver's current
+value: the first call leaves the receiver's value unchanged and nothing else is consulted -/
+theorem setColorSpace_second_call {γ α} (l₁ l₂ : Bool) (f₁ f₂ : α → α) (m : Mem α) (g : Grad γ)
+    (ha : g.stops.arr < m.length) (hl : g.stops.off + g.stops.len ≤ (m.getD g.stops.arr []).length) :
+    let m' := (gradSetColorSpace l₁ f₁ m g).1
+    (gradSetColorSpace l₂ f₂ m' g).2.value (gradSetColorSpace l₂ f₂ m' g).1 = scsValue l₂ f₂ (g.value m) := by
+  intro m'
+  have hview : view m' g.stops = view m g.stops := gradients_unchanged l₁ f₁ m g.stops g.stops ha
+  have hlen : g.stops.off + g.stops.len ≤ (m'.getD g.stops.arr []).length := by
+    have e : m'.getD g.stops.arr [] = m.getD g.stops.arr [] := by
+      show (setColorSpace l₁ f₁ m g.stops).1.getD g.stops.arr [] = _
+      cases l₁ with
+      | true => rfl
+      | false =>
+        simp only [setColorSpace, Bool.false_eq_true, if_false, mapInPlace]
+        rw [mapInPlaceFrom_getD_other f₁ _ _ (by simp only [copySlice]; omega)]
+        simp only [copySlice, getD_append_left _ _ _ ha]
+    rw [e]; exact hl
+  rw [setColorSpace_value l₂ f₂ m' g hlen]
+  simp only [Grad.value, hview]
+
 /-- Go `append` writes in place when len < cap: a sibling header over the same array sees the write -/
 theorem append_aliases :
     let m : Mem Nat := [[1, 2, 3, 4]]
